@@ -88,7 +88,7 @@ TInit ==
   /\ quiet = [t \in T |-> 0]
   /\ acted = {}
   /\ pconn = FALSE
-  /\ cnt = [cyc |-> 0, ops |-> 0, env |-> 0, req |-> 0, off |-> 0]
+  /\ cnt = [cyc |-> 0, ops |-> 0, env |-> 0, req |-> 0, off |-> 0, split |-> 0, sel |-> {}]
 
 IsEv(e) == l <= Len(Tr) /\ Rec.ev = e
 \* "the peer is telling field f of t" lasts from the stimulus record that sends the frame to the first record in
